@@ -28,7 +28,9 @@ let () =
         let model = (try eval c with e -> "MODEL-EXCEPTION " ^ Printexc.to_string e) in
         if model <> rust then Printf.printf "MISMATCH\t%s\t%s\t%s\n" case rust model;
         List.iter (fun (prop, why) -> Printf.printf "PROPFAIL\t%s\t%s\t%s\t%s\n" prop case rust why)
-          (try oracle c rust with e -> [("?", "ORACLE-EXCEPTION " ^ Printexc.to_string e)])
+          (if rust = "(harness-panic 1)" && domain <> "serde"
+           then [("?", "the implementation panicked, or violated an expectation of the harness, on this case")]
+           else (try oracle c rust with e -> [("?", "ORACLE-EXCEPTION " ^ Printexc.to_string e)]))
     done
   with End_of_file -> ());
   if domain = "solver" || domain = "faults" then begin
